@@ -1,9 +1,180 @@
 import WM.Proto
+import WM.Model.Numeric
+import WM.Spec.Numeric
 namespace WM.Drv.C13
-open WM.Proto
+open WM.Proto WM.Proto.SExp WM.Numeric WM.NumericSpec
+
+def showR (r : R) : String := s!"({r.lo} {r.hi} {r.shift})"
+def showRs (rs : List R) : String := showList showR rs
+/-- Canonical form for comparison: what the consumer sees after shifting. -/
+def showRc (r : R) : String := s!"({r.lo >>> r.shift} {r.hi >>> r.shift} {r.shift})"
+def showRcs (rs : List R) : String := showList showRc rs
+
+def showEx {α} (f : α → String) : Except Err α → String
+  | .ok a => "ok " ++ f a
+  | .error e => "err " ++ e.name
+
+def showSub : Sub → String
+  | .term t => s!"(t {showHex t})"
+  | .range a b => s!"(r {showHex a} {showHex b})"
+
+def optInt? (e : SExp) : Option (Option Int) := opt? int? e
+def optNat? (e : SExp) : Option (Option Nat) := opt? nat? e
 
 /-- Protocol handler of family `c13` (requests arrive without the family token). -/
 def handle : List SExp → String
+  | [.atom "split", n, step, s, e] =>
+    match n.nat?, step.nat?, s.nat?, e.nat? with
+    | some n, some step, some s, some e =>
+      if h : 0 < step then showRs (splitRanges n step h s e) else "bad-op"
+    | _, _, _, _ => "bad-op"
+  | [.atom "splitc", n, step, s, e] =>
+    match n.nat?, step.nat?, s.nat?, e.nat? with
+    | some n, some step, some s, some e =>
+      if h : 0 < step then showRcs (splitRanges n step h s e) else "bad-op"
+    | _, _, _, _ => "bad-op"
+  | [.atom "tieredc-int", n, sg, s, e, step, sx, ex] =>
+    match n.nat?, sg.bool?, optInt? s, optInt? e, step.nat?, sx.bool?, ex.bool? with
+    | some n, some sg, some s, some e, some step, some sx, some ex =>
+      showRcs (tieredInt n sg s e step sx ex)
+    | _, _, _, _, _, _, _ => "bad-op"
+  | [.atom "tieredc-float", sg, s, e, step, sx, ex] =>
+    match sg.bool?, optNat? s, optNat? e, step.nat?, sx.bool?, ex.bool? with
+    | some sg, some s, some e, some step, some sx, some ex =>
+      showEx showRcs (tieredFloat sg s e step sx ex)
+    | _, _, _, _, _, _ => "bad-op"
+  | [.atom "tiered-int", n, sg, s, e, step, sx, ex] =>
+    match n.nat?, sg.bool?, optInt? s, optInt? e, step.nat?, sx.bool?, ex.bool? with
+    | some n, some sg, some s, some e, some step, some sx, some ex =>
+      showRs (tieredInt n sg s e step sx ex)
+    | _, _, _, _, _, _, _ => "bad-op"
+  | [.atom "tiered-float", sg, s, e, step, sx, ex] =>
+    match sg.bool?, optNat? s, optNat? e, step.nat?, sx.bool?, ex.bool? with
+    | some sg, some s, some e, some step, some sx, some ex =>
+      showEx showRs (tieredFloat sg s e step sx ex)
+    | _, _, _, _, _, _ => "bad-op"
+  | [.atom "tosort-int", n, sg, x] =>
+    match n.nat?, sg.bool?, x.int? with
+    | some n, some sg, some x => toString (toSortableInt n sg x)
+    | _, _, _ => "bad-op"
+  | [.atom "fromsort-int", n, sg, x] =>
+    match n.nat?, sg.bool?, x.int? with
+    | some n, some sg, some x => toString (fromSortableInt n sg x)
+    | _, _, _ => "bad-op"
+  | [.atom "fsort", sg, b] =>
+    match sg.bool?, b.nat? with
+    | some sg, some b => showEx toString (floatToSortable b sg)
+    | _, _ => "bad-op"
+  | [.atom "funsort", sg, x] =>
+    match sg.bool?, x.int? with
+    | some sg, some x => showEx toString (sortableToFloat x sg)
+    | _, _ => "bad-op"
+  | [.atom "flt", a, b] =>
+    match a.nat?, b.nat? with
+    | some a, some b => showBool (fLt a b)
+    | _, _ => "bad-op"
+  | [.atom "totallt", a, b] =>
+    match a.nat?, b.nat? with
+    | some a, some b => showBool (totalLt a b)
+    | _, _ => "bad-op"
+  | [.atom "prepare-int", n, sg, x] =>
+    match n.nat?, sg.bool?, x.int? with
+    | some n, some sg, some x => showEx toString (prepareInt n sg x)
+    | _, _, _ => "bad-op"
+  | [.atom "prepare-float", sg, b] =>
+    match sg.bool?, b.nat? with
+    | some sg, some b => showEx toString (prepareFloat sg b)
+    | _, _ => "bad-op"
+  | [.atom "minmax-int", n, sg] =>
+    match n.nat?, sg.bool? with
+    | some n, some sg => let (a, b) := minMaxInt n sg; s!"{a} {b}"
+    | _, _ => "bad-op"
+  | [.atom "minmax-float", sg] =>
+    match sg.bool? with
+    | some sg => showEx (fun (p : Nat × Nat) => s!"{p.1} {p.2}") (minMaxFloat sg)
+    | _ => "bad-op"
+  | [.atom "tobytes-int", w, sg, x, sh] =>
+    match w.nat?, sg.bool?, x.int?, sh.nat? with
+    | some w, some sg, some x, some sh => showEx showHex (toBytesInt w sg x sh)
+    | _, _, _, _ => "bad-op"
+  | [.atom "tobytes-float", sg, b, sh] =>
+    match sg.bool?, b.nat?, sh.nat? with
+    | some sg, some b, some sh => showEx showHex (toBytesFloat sg b sh)
+    | _, _, _ => "bad-op"
+  | [.atom "frombytes-int", w, sg, .atom hex] =>
+    match w.nat?, sg.bool?, hexBytes? hex with
+    | some w, some sg, some bs => toString (fromBytesInt w sg bs)
+    | _, _, _ => "bad-op"
+  | [.atom "index-int", w, sg, step, x] =>
+    match w.nat?, sg.bool?, step.nat?, x.int? with
+    | some w, some sg, some step, some x =>
+      showEx (showList showHex) (do
+        let x ← prepareInt (8 * w) sg x
+        indexTerms w step (toSortableInt (8 * w) sg x).toNat)
+    | _, _, _, _ => "bad-op"
+  | [.atom "index-int-list", w, sg, step, xs] =>
+    match w.nat?, sg.bool?, step.nat?, intList? xs with
+    | some w, some sg, some step, some xs =>
+      showEx (showList showHex) (do
+        let ys ← xs.mapM fun x => do
+          let x ← prepareInt (8 * w) sg x
+          pure (toSortableInt (8 * w) sg x).toNat
+        indexTermsList w step ys)
+    | _, _, _, _ => "bad-op"
+  | [.atom "index-float", sg, step, b] =>
+    match sg.bool?, step.nat?, b.nat? with
+    | some sg, some step, some b =>
+      showEx (showList showHex) (do
+        let b ← prepareFloat sg b
+        let s ← floatToSortable b sg
+        indexTerms 8 step s.toNat)
+    | _, _, _ => "bad-op"
+  | [.atom "compile-int", w, sg, step, s, e, sx, ex] =>
+    match w.nat?, sg.bool?, step.nat?, optInt? s, optInt? e, sx.bool?, ex.bool? with
+    | some w, some sg, some step, some s, some e, some sx, some ex =>
+      showEx (showList showSub) (compileInt w sg step s e sx ex)
+    | _, _, _, _, _, _, _ => "bad-op"
+  | [.atom "compile-float", sg, step, s, e, sx, ex] =>
+    match sg.bool?, step.nat?, optNat? s, optNat? e, sx.bool?, ex.bool? with
+    | some sg, some step, some s, some e, some sx, some ex =>
+      showEx (showList showSub) (compileFloat sg step s e sx ex)
+    | _, _, _, _, _, _ => "bad-op"
+  | [.atom "dt2long", d, s, u] =>
+    match d.int?, s.int?, u.int? with
+    | some d, some s, some u => toString (tdToUsecs ⟨d, s, u⟩)
+    | _, _, _ => "bad-op"
+  | [.atom "long2dt", x] =>
+    match x.int? with
+    | some x => let t := longToTD x; s!"{t.days} {t.seconds} {t.micros}"
+    | _ => "bad-op"
+  | [.atom "dec2int", dc, q] =>
+    match dc.nat?, q.rat? with
+    | some dc, some q => toString (decimalToInt dc q)
+    | _, _ => "bad-op"
+  | [.atom "prepare-dec", n, sg, dc, q] =>
+    match n.nat?, sg.bool?, dc.nat?, q.rat? with
+    | some n, some sg, some dc, some q => showEx toString (prepareDecimal n sg dc q)
+    | _, _, _, _ => "bad-op"
+  | [.atom "int2dec", dc, x] =>
+    match dc.nat?, x.int? with
+    | some dc, some x => showRat (unprepareDecimal dc x)
+    | _, _ => "bad-op"
+  | [.atom "spec-filter-int", docs, s, e, sx, ex] =>
+    match listOf? intList? docs, optInt? s, optInt? e, sx.bool?, ex.bool? with
+    | some docs, some s, some e, some sx, some ex => showNatList (filterIdx intLt docs s e sx ex)
+    | _, _, _, _, _ => "bad-op"
+  | [.atom "spec-filter-float", docs, s, e, sx, ex] =>
+    match listOf? natList? docs, optNat? s, optNat? e, sx.bool?, ex.bool? with
+    | some docs, some s, some e, some sx, some ex => showNatList (filterIdx totalLt docs s e sx ex)
+    | _, _, _, _, _ => "bad-op"
+  | [.atom "spec-sort-int", vals] =>
+    match intList? vals with
+    | some vals => showNatList (sortIdx intLt vals)
+    | _ => "bad-op"
+  | [.atom "spec-sort-float", vals] =>
+    match natList? vals with
+    | some vals => showNatList (sortIdx totalLt vals)
+    | _ => "bad-op"
   | _ => "bad-op"
 
 end WM.Drv.C13
